@@ -78,6 +78,7 @@ type Ctx struct {
 	DrvPath string
 	Self    string
 	quiet   bool // while shrinking: no counting, no samples
+	Scale   int
 }
 
 func (c *Ctx) startDriver(path string) error {
@@ -212,6 +213,7 @@ func main() {
 	n := flag.Int("n", 0, "number of generated cases (0 = tier default)")
 	replay := flag.String("replay", "", "replay file")
 	child := flag.String("child", "", "internal: child mode")
+	scale := flag.Int("scale", 1, "multiply the tier's case budgets (used when a modelled function changed)")
 	flag.Parse()
 
 	if *child != "" {
@@ -232,6 +234,7 @@ func main() {
 		ctx.Facts.Spellings = map[string][]string{}
 	}
 	ctx.N = *n
+	ctx.Scale = *scale
 	if err := ctx.startDriver(*drv); err != nil {
 		fmt.Fprintln(os.Stderr, "cannot start driver:", err)
 		os.Exit(2)
@@ -276,10 +279,14 @@ func (c *Ctx) budget(quick, thorough int) int {
 	if c.N > 0 {
 		return c.N
 	}
-	if c.Tier == "thorough" {
-		return thorough
+	sc := c.Scale
+	if sc < 1 {
+		sc = 1
 	}
-	return quick
+	if c.Tier == "thorough" {
+		return thorough * sc
+	}
+	return quick * sc
 }
 
 func (c *Ctx) style(canon bool) *Style {
